@@ -2,16 +2,18 @@
 # run_seed.sh <seed-name> [tier]: apply /verif/seeded/<name>/patch.diff to /repo, run the property's check, record the outcome
 # in meta.json (caught_by / detection), and undo the change straight afterwards.
 NAME=$1; TIER=${2:-quick}
-D=/verif/seeded/$NAME
+V=$(cd "$(dirname "$0")/.." && pwd)            # the verif tree this script lives in (a vp-run snapshot or /verif)
+R=${VERIF_REPO:-/repo}
+D=$V/seeded/$NAME
 PID=$(python3 -c "import json;print(json.load(open('$D/meta.json'))['property'])")
-cd /verif
-git -C /repo diff --quiet || { echo "/repo is dirty"; exit 2; }
-cp /verif/evidence/$PID.json /tmp/evidence_$PID.bak 2>/dev/null
-git -C /repo apply $D/patch.diff || exit 2
-timeout 1500 ./vcheck $PID --tier $TIER > /tmp/seedrun_$NAME.log 2>&1; RC=$?
-git -C /repo checkout -- . ; git -C /repo clean -fdq -- exponax
-cp /tmp/evidence_$PID.bak /verif/evidence/$PID.json 2>/dev/null
-LINE=$(grep -m1 "^VIOLATION" /tmp/seedrun_$NAME.log)
+cd $V
+git -C $R diff --quiet || { echo "$R is dirty"; exit 2; }
+cp $V/evidence/$PID.json /tmp/evidence_$PID.$$.bak 2>/dev/null
+git -C $R apply $D/patch.diff || exit 2
+timeout 1500 ./vcheck $PID --tier $TIER > /tmp/seedrun_$NAME.$$.log 2>&1; RC=$?
+git -C $R checkout -- . ; git -C $R clean -fdq -- exponax
+cp /tmp/evidence_$PID.$$.bak $V/evidence/$PID.json 2>/dev/null; rm -f /tmp/evidence_$PID.$$.bak
+LINE=$(grep -m1 "^VIOLATION" /tmp/seedrun_$NAME.$$.log); rm -f /tmp/seedrun_$NAME.$$.log
 python3 - <<PY
 import json
 f="$D/meta.json"; m=json.load(open(f))
